@@ -13,6 +13,10 @@
 (*        | [r |-> "unser"]                                                 *)
 (*   same_p / same_c: the maximal positions at which the plain / memoizing *)
 (*   result is the identical object (is) of the input.                     *)
+(*   mod[j]: the argument objects of entry point j (the expression and the *)
+(*   dict that was passed / captured) serialised before and after the      *)
+(*   call: [r |-> "same"] when the two serialisations are the same text,   *)
+(*   else [r |-> "mod", e0, sg0, e1, sg1] | [r |-> "unser"].                *)
 (* Clauses (all decided by the M-layer of C08_Subst):                      *)
 (*   value            the substitution lemma, in every environment of the  *)
 (*                    box, for every entry point                           *)
@@ -21,6 +25,10 @@
 (*                    judged when equal subtrees are identical subtrees)   *)
 (*   variants-differ  all entry points return == trees                     *)
 (*   raised / variant-raised   an entry point raised instead               *)
+(*   input-modified   the call changed one of its argument objects (the    *)
+(*                    property speaks of THE expression and THE map: a     *)
+(*                    later use of either must find what the caller put    *)
+(*                    there - see C08_Hist for the histories)              *)
 (* Each failing clause is printed with the named deviation of the A-layer  *)
 (* (C08_SubstImpl) that explains it, "none" if there is none; differences  *)
 (* between the recorded tree / flags and the A-layer's prediction that do  *)
@@ -111,6 +119,16 @@ Judge(rec) ==
          /\ (rec.res[j].r # "ok" \/ plain.r # "ok" \/ Norm(r.e) = Norm(plain.e) \/
              PrintT(ToJson([id |-> rec.id, v |-> "variants-differ", dev |-> "none",
                             var |-> j, env |-> 0, why |-> r.e.t, path |-> << >>])))
+    /\ \* the argument objects after the call against the same objects before it
+       \A j \in 1..NV :
+         rec.mod[j].r # "mod" \/
+         LET m == rec.mod[j] IN
+         /\ (Norm(m.e0) = Norm(m.e1) \/
+             PrintT(ToJson([id |-> rec.id, v |-> "input-modified", dev |-> "none", var |-> j,
+                            env |-> 0, why |-> "expression", path |-> << >>])))
+         /\ (SameDict(m.sg0, m.sg1) \/
+             PrintT(ToJson([id |-> rec.id, v |-> "input-modified", dev |-> "none", var |-> j,
+                            env |-> 0, why |-> "map", path |-> << >>])))
     /\ \* drift of the transcription (never a verdict)
        (plain.r # "ok" \/ Norm(plain.e) = Norm(predicted.e) \/
         PrintT(ToJson([id |-> rec.id, v |-> "DRIFT", what |-> "tree"])))
